@@ -13,6 +13,8 @@ pub struct Ctx {
     pub leaves: BTreeMap<String, Leaf>,
     /// collections printed with zero elements (zero-field / zero-variant shapes)
     pub empty: Vec<String>,
+    /// explicit element counts for collections (from size atoms of the path)
+    pub sizes: BTreeMap<String, usize>,
 }
 #[derive(Clone, Debug)]
 pub struct Leaf {
@@ -46,7 +48,7 @@ pub fn leaf_of(path: &str, ctx: &Ctx) -> Leaf {
     Leaf { path: path.to_string(), idx }
 }
 impl Ctx {
-    pub fn new(n: usize) -> Ctx { Ctx { n, idx: Default::default(), notes: vec![], leaves: Default::default(), empty: vec![] } }
+    pub fn new(n: usize) -> Ctx { Ctx { n, idx: Default::default(), notes: vec![], leaves: Default::default(), empty: vec![], sizes: Default::default() } }
 }
 
 fn sanitize(s: &str) -> String {
@@ -228,7 +230,7 @@ fn expand_seq(v: &Val, ctx: &mut Ctx) -> Vec<TokenStream> {
         }
         Val::Rep { coll, items } => {
             let mut out = Vec::new();
-            let n = if ctx.empty.iter().any(|e| e == coll) { 0 } else { ctx.n };
+            let n = if ctx.empty.iter().any(|e| e == coll) { 0 } else { ctx.sizes.get(coll).copied().unwrap_or(ctx.n) };
             for i in 1..=n {
                 ctx.idx.insert(coll.clone(), i);
                 for it in items { out.push(render(it, ctx)); }
@@ -239,7 +241,7 @@ fn expand_seq(v: &Val, ctx: &mut Ctx) -> Vec<TokenStream> {
         Val::Opaque { .. } | Val::Sym { .. } => {
             // opaque iterator: N schematic elements
             let base = match v { Val::Sym { path, .. } => leaf_name(path, ctx), _ => sanitize(&v.short().chars().take(40).collect::<String>()) };
-            let n = match v { Val::Sym { path, .. } if ctx.empty.iter().any(|e| e == path) => 0, _ => ctx.n };
+            let n = match v { Val::Sym { path, .. } if ctx.empty.iter().any(|e| e == path) => 0, Val::Sym { path, .. } => ctx.sizes.get(path).copied().unwrap_or(ctx.n), _ => ctx.n };
             (1..=n).map(|i| std::iter::once(ident(&format!("__it_{base}_{i}"))).collect()).collect()
         }
         other => vec![render(other, ctx)],
